@@ -92,13 +92,20 @@ def stream_serialize_vlq(f: BinaryIO, i: int) -> None:
 def stream_deserialize_vlq(f: BinaryIO) -> int:
     """ """
     result = 0
+    n_bytes = 0
 
     while True:
         (b,) = struct.unpack(b"B", safe_read(f, 1))
+        n_bytes += 1
 
         result += (b % 128)
 
         if b < 128:
+            # accept only the encoding that stream_serialize_vlq produces, so that each value has a single encoding
+            # (hashes are calculated over the raw bytes).
+            if n_bytes != (result.bit_length() // 7) + 1:
+                raise DeserializationError("Non-canonical VLQ encoding")
+
             return result
 
         result *= 128
